@@ -250,6 +250,8 @@ def run_hx(cases, timeout=1800):
     if rc == 0:
         return res
     if len(cases) == 1:
+        if rc == -999:
+            return {cases[0][0]: ["T timeout"]}     # did not finish: not a crash, and not a claim of any property
         return {cases[0][0]: ["P process-died rc=%s %s" % (rc, err[-200:].replace("\n", " "))]}
     # results before the crash are valid; rerun the rest split in two
     done = [c for c in cases if c[0] in res]
